@@ -13,6 +13,7 @@ import (
 	"verifharness/refbmc"
 	"verifharness/udpbmc"
 
+	"github.com/cenkalti/backoff/v4"
 	"github.com/gebn/bmc"
 	"github.com/gebn/bmc/pkg/ipmi"
 	"github.com/prometheus/client_golang/prometheus"
@@ -134,6 +135,11 @@ func c18Exec(run *ev.Run, c ev.Case) {
 			kinds = []string{"cmd-ok", "cmd-ok", "cmd-cc", "cmd-busy-ok", "cmd-garbage-ok", "cmd-trunc", "cmd-lost", "cmd-serfail", "cmd-nobody-ok", "close-ok", "close-fail", "sl-ok", "dial-ok", "dial-bad"}
 		}
 		kind := kinds[r.Intn(len(kinds))]
+		if r.Intn(70) == 0 {
+			// the caller's deadline falls inside a (non-zero) back-off wait: the
+			// scheduled retry is never transmitted and must not be counted
+			kind = []string{"sl-deadline-in-backoff", "cmd-deadline-in-backoff"}[r.Intn(2)]
+		}
 		trace = append(trace, kind)
 		run.Eval(1)
 		before := c18Snapshot()
@@ -239,6 +245,52 @@ func c18Exec(run *ev.Run, c ev.Case) {
 				}
 				if (kind == "open-ok") != (err == nil) {
 					run.Violation("C18:harness-open", fmt.Sprintf("step %s: err=%v", kind, err), cs, nil)
+				}
+			case "sl-deadline-in-backoff", "cmd-deadline-in-backoff":
+				se2 := NewScriptEnv(cfg, memtr.Window)
+				se2.ST = bmc.VerifNewV2SessionlessTransport(se2.T, 5*time.Second, backoff.NewConstantBackOff(3*time.Second))
+				var conn bmc.Connection = se2.ST
+				if kind == "cmd-deadline-in-backoff" {
+					ctx, cancel := bg(10 * time.Second)
+					s2, err := se2.ST.NewV2Session(ctx, &bmc.V2SessionOpts{SessionOpts: bmc.SessionOpts{Username: cfg.Username, Password: cfg.Password, MaxPrivilegeLevel: ipmi.PrivilegeLevelAdministrator}, CipherSuites: []ipmi.CipherSuite{libSuite(su)}})
+					cancel()
+					model.add("bmc_session_open_attempts_total", "", 1)
+					if err != nil {
+						model.add("bmc_session_open_failures_total", "", 1)
+						return
+					}
+					model.add("bmc_sessions_open", "", 1) // never closed: the gauge model keeps it
+					conn = s2
+				}
+				outcome := []string{"busy", "garbage:noise", "tmo"}[r.Intn(3)]
+				cmd := &ipmi.GetDeviceIDCmd{}
+				st := &scriptState{script: []string{outcome, outcome, outcome}, okBody: devid, minBody: 11}
+				se2.st = st
+				ctx, cancel := context.WithTimeout(context.Background(), 15*time.Millisecond)
+				_, err := conn.SendCommand(ctx, cmd)
+				cancel()
+				se2.st = nil
+				model.add("bmc_command_attempts_total", "command="+cmd.Name(), 1)
+				if err != nil {
+					model.add("bmc_command_failures_total", "command="+cmd.Name(), 1)
+				}
+				sends := se2.T.Transmissions()
+				if kind == "cmd-deadline-in-backoff" {
+					sends -= 3 // the handshake
+				}
+				if sends > 1 {
+					model.add("bmc_command_retries_total", "", float64(sends-1))
+				}
+				for _, a := range st.log {
+					switch a.Outcome {
+					case "busy":
+						model.add("bmc_command_responses_total", lbl(0xc0), 1)
+					case "tmo":
+						model.add("bmc_command_responses_total", lbl(0xc3), 1)
+					}
+				}
+				if sends != 1 || err == nil {
+					run.Observe("deadline-in-backoff-step-not-as-intended", 1)
 				}
 			case "sl-ok":
 				command(se.ST, &ipmi.GetChannelAuthenticationCapabilitiesCmd{}, nil, authcaps, 8)
